@@ -188,6 +188,10 @@ def big_specs(rng, n):
     out = []
     menu = [
         dict(bs=1024, gb=(4, 5, 6), csum=False, flex=0),
+        # a block-mapped file of ~100-170 MiB: an indirect block every 256 KiB, i.e. metadata at
+        # changing positions inside > 512 qcow2 L2 tables (the L2 cache has to be flushed and
+        # its tables reused in the middle of the image)
+        dict(bs=1024, gb=(2, 3), csum=False, flex=0, ext3=True, mapped_blocks=(110000, 170000)),
         dict(bs=1024, gb=(2, 3), csum=True, flex=0),
         dict(bs=2048, gb=(8, 12, 16), csum=False, flex=0),
         dict(bs=4096, gb=(20, 32, 40), csum=False, flex=0),
@@ -198,6 +202,8 @@ def big_specs(rng, n):
     for k in range(n):
         m = dict(menu[k % len(menu)])
         m["gb"] = rng.choice(m["gb"])
+        if m.get("mapped_blocks"):
+            m["mapped_blocks"] = rng.randrange(*m["mapped_blocks"])
         m["name"] = "big%d_%dk_%dg%s%s" % (k, m["bs"] // 1024, m["gb"], "_csum" if m["csum"] else "",
                                             "_ext3" if m.get("ext3") else "")
         m["seed"] = rng.randrange(1 << 30)
@@ -239,6 +245,8 @@ def build_big(b, env, spec, path, work):
     sf = os.path.join(work, "script")
     with open(sf, "w") as f:
         f.write("ea_set /islands user.big %s\nea_set /many user.d %s\n" % ("B" * 400, "d" * 300))
+        if spec.get("mapped_blocks"):
+            f.write("write /dev/null /bigmapped\nfallocate /bigmapped 0 %d\n" % spec["mapped_blocks"])
     r = run.run([b.tool("debugfs"), "-w", "-f", sf, path], env=env, timeout=300)
     r = run.run([b.tool("e2fsck"), "-fyD", path], env=env, timeout=900)      # builds the htree indexes
     if r.rc is None or r.rc & ~3:
